@@ -129,11 +129,13 @@ def parseConnect (req : Str) : Option ConnectReq :=
     | [m, t, v], some hh =>
       if m = "CONNECT".toList ∧ v = "HTTP/1.1".toList then
         match rest with
-        | [[], []] => some ⟨t, hh, none⟩
-        | [l2, [], []] =>
-          match stripPrefix? "Proxy-Authorization: Basic ".toList l2 with
-          | some b => some ⟨t, hh, some b⟩
-          | none => none
+        | [e1, e2] => if e1 = [] ∧ e2 = [] then some ⟨t, hh, none⟩ else none
+        | [l2, e1, e2] =>
+          if e1 = [] ∧ e2 = [] then
+            match stripPrefix? "Proxy-Authorization: Basic ".toList l2 with
+            | some b => some ⟨t, hh, some b⟩
+            | none => none
+          else none
         | _ => none
       else none
     | _, _ => none
